@@ -149,4 +149,6 @@ def ref_ukf_step(x0, p0, fmat, qmat, alpha, beta, kappa, hfun, kinds, rmat, z):
         "est_p": est_p,
         "is_angular": ang,
         "sigma": sig,
+        "dx0": dx[0],
+        "dy0": dy[0],
     }
